@@ -154,7 +154,11 @@ def show(sets: list[tuple] | None) -> str:
     return " ".join(one(iv) for iv in sets) or "the empty string"
 
 
-SPECIAL = ["[", "\\", "]", "^", "-", "a", "z", "A", "\0", "\n", "\U0001F600", "é"]
+# class-special characters, characters the engine's escape() prefixes with a backslash (U+005C) although they need none
+# outside a class ("-", "~", " ", "#"), and plain characters on both sides of U+005C: an endpoint test made on escaped
+# text instead of on code points goes wrong exactly for a pair with one escaped and one plain endpoint around U+005C
+SPECIAL = ["[", "\\", "]", "^", "-", "a", "z", "A", "~", " ", "0", "\0", "\n", "\U0001F600", "é"]
+QUICK = 11
 CI_VALUES = ["k", "K", "s", "é", "ß", "ab", "a.b", "Z9", "\\", "[k"]
 STR_VALUES = ["ab", "a.b", "k", "é", ""]
 
@@ -252,7 +256,7 @@ def check_terminals(repo: Repo, where: str, thorough: bool = False) -> tuple[int
                         bad.append((f"{T}::{cls}", f"{side} {cat}", f"{desc} on {padded!r} at {pos}: {side} gives {got}, the definition {want}"))
 
     # ---- ranges: every ordered pair of class-special and ordinary characters
-    pairs = [(a, b) for a in SPECIAL for b in SPECIAL] if thorough else [(a, b) for a in SPECIAL[:7] for b in SPECIAL[:7]] + [("\0", "\n"), ("a", "\U0001F600"), ("é", "é"), ("z", "a")]
+    pairs = [(a, b) for a in SPECIAL for b in SPECIAL] if thorough else [(a, b) for a in SPECIAL[:QUICK] for b in SPECIAL[:QUICK]] + [("\0", "\n"), ("a", "\U0001F600"), ("é", "é"), ("z", "a")]
     for a, b in pairs:
         want = None if a > b else [((ord(a), ord(b)),)]
         near = {a, b, chr(max(0, ord(a) - 1)), chr(min(0x10FFFF, ord(b) + 1)), a.swapcase()[:1] or a, ""}
